@@ -894,6 +894,9 @@ fn run_scenario(
     };
     acc.eval();
     acc.observe("interleavings", &sched.label());
+    if acc.samples.len() < 4 {
+        acc.sample(json!({"configuration": cfg.name, "schedule": sched.label(), "reader_pass_1": format!("{:?}", p1.iter().take(6).collect::<Vec<_>>())}));
+    }
     acc.count("interleavings_executed");
     if sched.q() != "harness.ops_done" {
         acc.nontrivial(&format!("{}|{}", cfg.name, sched.label()));
